@@ -8,7 +8,7 @@ from . import C01
 
 ID = 'C08'
 LEAN_TARGETS = ['Properties.C08']
-THEOREMS = ['Delta.C08_refuses', 'Delta.C08_sub_is_reverse', 'Delta.C08_reverse_involutive', 'Delta.C08_reverse_swaps', 'Delta.C08_detects_step', 'Delta.C08_errs_persist', 'Delta.C08_detects', 'Delta.C08_detects_first', 'Delta.C08_flat_dict_inverse', 'Delta.C08_list_positional_inverse', 'Delta.C08_nested_dict_inverse']
+THEOREMS = ['Delta.C08_refuses', 'Delta.C08_sub_is_reverse', 'Delta.C08_reverse_involutive', 'Delta.C08_reverse_swaps', 'Delta.C08_detects_step', 'Delta.C08_errs_persist', 'Delta.C08_detects', 'Delta.C08_detects_first', 'Delta.C08_flat_dict_inverse', 'Delta.C08_list_positional_inverse', 'Delta.C08_nested_dict_inverse', 'Delta.C08_set_inverse']
 RULE = ('tree-shaped pairs as in C01 (generated values with 1-3 edits, flat lists/tuples with insert/delete/replace/move/duplicate, flat dictionaries string -> scalar) x zip_ordered_iterables x '
         'threshold_to_diff_deeper in {0,0.33,0.9}, bidirectional=True: t2 - delta, t1 + delta, (t2 - delta) + delta and +,-,+,... sequences of length <= 6; every '
         'single-location corruption of the base at a path named by values_changed / type_changes (a fresh value, and the recorded new value), with raise_errors True and False; non-bidirectional subtraction. '
